@@ -192,31 +192,34 @@ def Res.m : Res → M
   | .stop m => m
   | .cont m => m
 
-/-- one write call: consumes one fault bit, is logged -/
-def M.write (m : M) (k : ActK) (arg : Nat := 0) : Bool × M :=
-  let ok := !(m.faults.testBit m.w)
-  (ok, { m with w := m.w + 1, acts := m.acts ++ [⟨k, ok, arg⟩] })
+/-- does the next write call succeed? (its bit of the fault mask is clear) -/
+def M.wok (m : M) : Bool := !(m.faults.testBit m.w)
+
+/-- log one write call (consumes one fault bit) -/
+def M.logw (m : M) (k : ActK) (arg : Nat := 0) : M :=
+  { m with w := m.w + 1, acts := m.acts ++ [⟨k, m.wok, arg⟩] }
+
+/-- one write call on an object other than the job -/
+def M.write (m : M) (k : ActK) (arg : Nat := 0) : Bool × M := (m.wok, m.logw k arg)
 
 def M.setStatus (m : M) (f : Status → Status) : M := { m with mem := { m.mem with status := f m.mem.status } }
 def M.setSpec (m : M) (f : Spec → Spec) : M := { m with mem := { m.mem with spec := f m.mem.spec } }
 
 /-- `r.Client.Status().Update(ctx, job)` -/
 def M.statusUpdate (m : M) : Bool × M :=
-  let (ok, m) := m.write .statusUpdate
-  if ok then (true, { m with api := { m.api with status := m.mem.status }, mem := { m.mem with spec := m.api.spec } })
-  else (false, m)
+  if m.wok then
+    (true, { m.logw .statusUpdate with api := { m.api with status := m.mem.status }, mem := { m.mem with spec := m.api.spec } })
+  else (false, m.logw .statusUpdate)
 
 /-- `r.Client.Update(ctx, job)` -/
 def M.jobUpdate (m : M) : Bool × M :=
-  let (ok, m) := m.write .jobUpdate
-  if ok then (true, { m with api := { m.api with spec := m.mem.spec }, mem := { m.mem with status := m.api.status } })
-  else (false, m)
+  if m.wok then
+    (true, { m.logw .jobUpdate with api := { m.api with spec := m.mem.spec }, mem := { m.mem with status := m.api.status } })
+  else (false, m.logw .jobUpdate)
 
 /-- `evictorInterpreter.Evict(ctx, job, pod)` -/
 def M.evictCall (m : M) (uid : Nat) : Bool × M :=
-  let snap : Snap := { env := m.env, job0 := m.job0, mem := m.mem }
-  let (ok, m) := m.write .evict uid
-  (ok, { m with evicts := m.evicts ++ [snap] })
+  (m.wok, { m.logw .evict uid with evicts := m.evicts ++ [{ env := m.env, job0 := m.job0, mem := m.mem }] })
 
 /-- controller.go `updateCondition` -/
 def updateCondition (m : M) (c : Cond) : Bool × M :=
